@@ -37,7 +37,7 @@ RULE = ("one case = one transfer_model call at the end of a history prefix (hist
 TRUSTED = ["a pymoca version change is simulated by changing `api.__version__` and wrapping `api._compile_model` so that the compiled model records the version that compiled it (otherwise a different version would compile identically and a stale hit would be invisible)",
            "os.utime/os.path.getmtime and the file system keep modification times that differ by >= 1 microsecond distinct",
            "the fresh compile used as reference is pymoca's own _compile_model (via transfer_model with caching off)"]
-ASSUMPTIONS = ["mtime_check stays True (it is the documented opt-out of the staleness check)",
+ASSUMPTIONS = ["no source is edited while mtime_check is False (the documented opt-out of the source scan); version and option changes are still exercised with it off (stream mtime-check-off)",
                "modification times differ by at least 1 microsecond: load_model compares os.path.getmtime floats (~240 ns resolution)",
                "files are rewritten or added, never deleted or given an older time than the cache (the property's hypothesis)",
                "main stream: library_folders is the same list in every call of one history (forced by the proof; the other case is finding C20-F1)",
@@ -224,6 +224,18 @@ def gen_libedit_history(rng, variant):
     return h
 
 
+def gen_nomtime_history(rng):
+    """`mtime_check = False` switches the source scan off (so no source is edited while it is off), nothing
+    else: version changes and option changes must still be noticed."""
+    base = dict(G.gen_options(rng, heavy=0.3), mtime_check=False)
+    k = rng.choice(["detect_aliases", "expand_vectors", "replace_parameter_values", "eliminate_constant_assignments"])
+    ops = [["write", 0, "M.mo", SWEEP_TEXT, 1], ["options", dict(base)], ["transfer", "cache"], ["transfer", "cache"],
+           ["version", "verif-%d" % rng.randint(1, 3)], ["transfer", "cache"], ["transfer", "cache"],
+           ["options", G.flip(base, k)], ["transfer", "cache"],
+           ["version", "verif-%d" % rng.randint(4, 6)], ["transfer", "cache"], ["options", dict(base)], ["transfer", "cache"]]
+    return {"stream": "mtime-check-off", "libs": [], "step_ns": 10**6, "ops": ops}
+
+
 def gen_f2_history(rng):
     """C20-F2: a CachedModel loaded from the shared libraries is alive while they are rebuilt."""
     a = "model M\n  parameter Real p = 1;\n  Real x;\nequation\n  x = %s*p;\nend M;\n"
@@ -307,7 +319,7 @@ def run_history(ctx, hist, drv, hid):
                 if df:
                     ctx.violation("transfer_model returned a model that differs from a fresh compile of the current sources "
                                   "(decision: %s): %s" % (kind, df[0]), case, expected="fresh compile", observed=df, kind="history")
-                    if hist["stream"] in ("main", "option-sweep", "thorough-codegen") or hist["stream"].startswith("library-edit"):
+                    if hist["stream"] in ("main", "option-sweep", "thorough-codegen", "mtime-check-off") or hist["stream"].startswith("library-edit"):
                         return
             else:
                 raise HarnessError("unknown op " + str(k))
@@ -359,6 +371,10 @@ def run(ctx):
         hid += 1
         ctx.count("stream:library-edit:" + variant)
         run_history(ctx, gen_libedit_history(ctx.rng, variant), drv, hid)
+    for _ in range(1 if quick else 8):
+        hid += 1
+        ctx.count("stream:mtime-check-off")
+        run_history(ctx, gen_nomtime_history(ctx.rng), drv, hid)
     # known-finding streams, kept apart from the main stream
     for _ in range(2 if quick else 12):
         hid += 1
